@@ -6,17 +6,18 @@ from concurrent.futures import ThreadPoolExecutor
 ROOT = os.path.dirname(os.path.dirname(os.path.abspath(__file__)))
 a = sys.argv[1:]
 prop, first, last = a[0], int(a[1]), int(a[2])
-engine = "e1"; opts = []; show = None
+engine = "e1"; opts = []; show = None; tier = "quick"
 i = 3
 while i < len(a):
     if a[i] == "--engine": engine = a[i+1]; i += 2
     elif a[i] == "--opt": opts += ["--opt", a[i+1]]; i += 2
     elif a[i] == "--show": show = a[i+1]; i += 2
+    elif a[i] == "--tier": tier = a[i+1]; i += 2
     else: i += 1
 subprocess.run(["cargo", "build", "--offline", "--quiet"], cwd=ROOT + "/sim", check=True, stderr=subprocess.DEVNULL)  # never sweep a stale binary
 env = dict(os.environ); env["LD_PRELOAD"] = ROOT + "/shim/libdetrand.so"; env["LANCE_PROCESS_IO_THREADS_LIMIT"] = "0"; env["LANCE_CPU_THREADS"] = "1"
 def run(seed):
-    r = subprocess.run(["setarch", "-R", ROOT + "/target/debug/lancesim", "run", "--engine", engine, "--prop", prop, "--seed", str(seed)] + opts, env=env, capture_output=True, text=True)
+    r = subprocess.run(["setarch", "-R", ROOT + "/target/debug/lancesim", "run", "--engine", engine, "--prop", prop, "--seed", str(seed), "--tier", tier] + opts, env=env, capture_output=True, text=True)
     try: return json.loads(r.stdout.strip().splitlines()[-1])
     except Exception: return {"status": "harness_error", "harness_error": r.stderr[-300:], "seed": seed, "violations": []}
 with ThreadPoolExecutor(16) as ex:
